@@ -61,7 +61,9 @@ def framing_variants():
     V.append(("cl-and-te", P([(b"Content-Length", b"3"), (b"Transfer-Encoding", b"chunked")], ch)))
     V.append(("te-and-cl", P([(b"Transfer-Encoding", b"chunked"), (b"Content-Length", b"13")], ch)))
     for te in (b"gzip", b"identity", b"gzip, chunked", b"chunked, gzip", b"chunked, chunked", b"Chunked", b"CHUNKED", b"chunked ", b" chunked", b"chunked\t",
-               b"x-chunked", b"chunked;q=1", b"\"chunked\"", b"chunke", b"chunkedd", b"chunked,", b",chunked", b"chunked\x0b", b"\x85chunked"):
+               b"x-chunked", b"chunked;q=1", b"\"chunked\"", b"chunke", b"chunkedd", b"chunked,", b",chunked", b"chunked\x0b", b"\x85chunked",
+               # list elements made of bytes that a text library may take for white space (NEL, NBSP, form feed, FS..US)
+               b"chunked, \x85", b"\xa0 ,chunked", b"chunked,\xa0", b"\x85, chunked", b"chunked, \x0c", b"chunked,\x1c", b"chunked\xa0", b"\x0cchunked", b"chunked , \x85\xa0"):
         V.append(("te-" + repr(te), P([(b"Transfer-Encoding", te)], ch)))
     V.append(("te-fold-lf", P([(b"Transfer-Encoding", b"chunked\r\n \n")], ch)))
     V.append(("te-fold", P([(b"Transfer-Encoding", b"chunked\r\n ")], ch)))
@@ -94,9 +96,13 @@ def framing_variants():
                        ("value-nul", b"X-A: a\x00b\r\n"), ("value-vt", b"X-A: a\x0bb\r\n"), ("value-del", b"X-A: a\x7fb\r\n"), ("value-obs", b"X-A: caf\xe9\r\n"),
                        ("fold-cont-lf", b"X-A: a\r\n b\nX-B: 2\r\n"), ("fold-cont-cr", b"X-A: a\r\n b\rX-B: 2\r\n"), ("fold-cont-lf-end", b"X-A: a\r\n b\n\r\n"),
                        ("fold-cont-lf-only", b"X-A: a\r\n \n\r\n"), ("fold-tab-lf", b"X-A: a\r\n\tb\n\r\n"), ("fold-cont-cr-end", b"X-A: a\r\n b\r\r\n"),
+                       # refused lines that are not valid UTF-8 (what is quoted in a message must not decide the outcome)
+                       ("bare-cr-obs", b"X-A: caf\xe9\rX-B: 2\r\n"), ("bare-lf-obs", b"X-A: \xff\xfe\nX-B: 2\r\n"), ("bare-cr-utf8cut", b"X-A: \xe2\x82\rX-B: 2\r\n"),
+                       ("no-colon-obs", b"X-A\xe9 1\r\n"), ("name-obs", b"X-\xe9: 1\r\n"), ("fold-cont-cr-obs", b"X-A: a\r\n \xe9\rX-B: 2\r\n"),
                        ("value-empty", b"X-A:\r\n"), ("value-tabs", b"X-A:\t a \t\r\n"), ("host-dup", b"Host: other\r\n"), ("ctype-dup", b"Content-Type: a\r\nContent-Type: b\r\n")):
         V.append(("hdr-" + name, G(line)))
     V.append(("fold-first", msg().replace(b"GET /a HTTP/1.1\r\n", b"GET /a HTTP/1.1\r\n X-A: 1\r\n")))
+    V.append(("fold-first-obs", msg().replace(b"GET /a HTTP/1.1\r\n", b"GET /a HTTP/1.1\r\n X-A: \xff\r\n")))
     # request line
     for name, line in (("two-sp", b"GET  /a HTTP/1.1"), ("tab-sep", b"GET\t/a HTTP/1.1"), ("trail-sp", b"GET /a HTTP/1.1 "), ("lead-sp", b" GET /a HTTP/1.1"),
                        ("ver-lower", b"GET /a http/1.1"), ("ver-11x", b"GET /a HTTP/1.10"), ("ver-2", b"GET /a HTTP/2.0"), ("no-ver", b"GET /a"),
